@@ -359,11 +359,13 @@ Next ==
   \/ \E o \in Owners, opt \in AutoOpts : AutoBind(o, opt)
   \/ \E mode \in UnsubModes \cap {"handler"}, h \in Handlers :
         Unsubscribe(mode, h[1], h[2], "-", 0)
-  \/ \E mode \in UnsubModes \cap {"handlerT"}, h \in Handlers, t \in Types :
+  \* (an unsubscription may name any event type, also one the source does not declare: nothing is subscribed under
+  \* it, so nothing happens - and raising an instance of that type is rejected afterwards as it was before)
+  \/ \E mode \in UnsubModes \cap {"handlerT"}, h \in Handlers, t \in Types \cup (RaiseTypes \ Types) :
         Unsubscribe(mode, h[1], h[2], t, 0)
   \/ \E mode \in UnsubModes \cap {"eid"}, id \in 1..(cnt.sub + 1) :
         Unsubscribe(mode, "-", "-", "-", id)
-  \/ \E mode \in UnsubModes \cap {"eidT", "pair"}, id \in 1..(cnt.sub + 1), t \in Types :
+  \/ \E mode \in UnsubModes \cap {"eidT", "pair"}, id \in 1..(cnt.sub + 1), t \in Types \cup (RaiseTypes \ Types) :
         Unsubscribe(mode, "-", "-", t, id)
   \/ UnsubscribeManyAny
   \/ ClearAll
